@@ -8,12 +8,12 @@ USES_FACTS = False
 DRIVER = "shootmodel_map"
 
 MANIFEST = dict(
-    text="Lean 4 theorems over the path tables (prepareReadPaths, nilCheckRead, nilCheckWrite, CoveredBy) and the guarded statements of mapper.tmpl evaluated in Except: for EVERY nil assignment to the reading side and every receiver state, ToX/FromX do not panic and compute the ideal result (each statement executed completely or skipped), FromX is independent of the receiver, nil in gives nil out; finding region F_ptrMapper (mapper type embedded by pointer) with witness theorem; cyclic embeddings (self / mutual / inner, either side) are part of WF (C09_selfEmbed_fixed). Model tied to the code by executing the generated ToX/FromX under recover() for all 2^k nil masks (k<=7 quick, <=10 thorough, sampled above) x clean/dirty/nil receiver and comparing every result table; cases with cyclic embeddings are first run under a 3 GB / 60 s limit (no-hang assertion: a run that does not come back is the observation exit=crash/hang - a violation, never an infrastructure error).",
+    text="Lean 4 theorems over the path tables (prepareReadPaths, nilCheckRead, nilCheckWrite, CoveredBy) and the guarded statements of mapper.tmpl evaluated in Except: for EVERY nil assignment to the reading side and every receiver state, ToX/FromX do not panic and compute the ideal result (each statement executed completely or skipped), FromX is independent of the receiver, nil in gives nil out; finding region F_ptrMapper (mapper type embedded by pointer) with witness theorem; cyclic embeddings (self / mutual / inner, either side) are part of WF (C09_selfEmbed_fixed). Accessor-mode sides (constructor path, promoted accessors) are region WFn where C15 has nothing to report: tied by the correspondence run alone (the theorems are about plain sides), incl. the ctoralloc keys (the generated constructor allocates every embedded pointer). Model tied to the code by executing the generated ToX/FromX under recover() for all 2^k nil masks (k<=7 quick, <=10 thorough, sampled above) x clean/dirty/nil receiver and comparing every result table; cases with cyclic embeddings are first run under a 3 GB / 60 s limit (no-hang assertion: a run that does not come back is the observation exit=crash/hang - a violation, never an infrastructure error).",
     note="Lean kernel + standard axioms; the closure of the emitted guard/allocation lists (outer pointer first) is derived from the generator's sort.Strings (C09_tables_closed; byte-wise lexicographic order modelled on List Nat), WF09 keeps only input-level clauses (selector resolution agrees with the generator's Path, no promoted field named like an embedded pointer type); correspondence via vo.ObserveMap.",
     technique="Lean 4 proof (guard-chain / allocation-chain lemmas, statement = ideal statement) + exhaustive nil-mask execution of generated mappers",
     design="5/C09")
 
-KEYS_PREFIX = ("toN:", "fromN:", "reset:", "to:nilrecv", "from:nilarg", "compile", "exit")
+KEYS_PREFIX = ("toN:", "fromN:", "reset:", "to:nilrecv", "from:nilarg", "compile", "exit", "ctoralloc:")
 
 BASE = dict(kinds=["same"] * 3 + ["conv"] * 2 + ["func"] * 3 + ["sub"] * 4 + ["each"] * 4 + ["none"],
             names=["ident"] * 6 + ["acronym", "tag"], embeds=0.9, ptr_embed=0.65, depth2=0.6, deep=0.7, i=0.05)
@@ -51,6 +51,20 @@ def shaped(g):
     # the same struct type embedded twice at different depths (seeded change C09-5): guards and allocations follow the SHALLOWER path
     for side in ("src", "dest", "src", "dest"):
         out.append(("embedded-twice-" + side, g.pair(**dict(BASE, embeds=1.0, ptr_embed=0.9, depth2=1.0, deep=0.95, diamond=1.0, diamond_side=side, selfembed=0.0))))
+    # accessor-mode sides (seeded change C09-7): the constructor path emits no allocations and relies on the generated constructor;
+    # a POINTER-embedded struct none of whose fields is a constructor parameter is still written through after construction
+    F, E, ST, INT, STR = mapgen.F, mapgen.E, mapgen.ST, mapgen.INT, mapgen.STR
+    for sd in ("dest", "src"):
+        for inner_exported in (False, True):
+            core = ST("Core", [F("Note" if inner_exported else "note", STR), F("rank", INT)], "new")
+            nw = [E(core, True), F("id", INT, new=True), F("title", STR)]
+            pl = [F("Note", STR), F("Rank", INT), F("ID", INT), F("Title", STR)]
+            sp = mapgen.mk_spec(pl, nw, dest_kind="new", sname="Doc") if sd == "dest" else mapgen.mk_spec(nw, pl, src_kind="new", sname="Doc")
+            out.append(("new-ptr-embed-without-ctor-params-" + sd, sp))
+    for sd in ("dest", "src", "dest", "src"):
+        sp = g.pair(**dict(BASE, embeds=0.0, shadow=0.0, multi=0.0, unexported=0.0, names=["ident"], kinds=["same", "conv", "sub", "each"], n=(4, 6),
+                           func_over=0.0, mapper_idle=0.0, diamond=0.0, selfembed=0.0, manual=0.0))
+        out.append(("new-" + sd, mapgen.to_new(g.rng, sp, sd, setonly=0.0, getonly=0.1, embed=0.7, newmark=0.5)))
     # finding region: mapper embedded by pointer, methods used
     out.append(("ptr-mapper", g.pair(**dict(BASE, kinds=["func"], n=(2, 3), mapper_ptr=1.0, flags={"way": "both"}))))
     out.append(("ptr-mapper-idle", g.pair(**dict(BASE, kinds=["same", "sub"], n=(2, 3), mapper_ptr=1.0, mapper_idle=1.0, func_over=0.0))))
@@ -75,7 +89,10 @@ def gen_cases(ctx):
     for i, (feat, sp) in enumerate(specs):
         ks = len(mapgen.slots(mapgen.side_struct(sp, "src")))
         kd = len(mapgen.slots(sp["dest"]))
-        c = mapgen.make_case("n%d" % i, sp, masks=masks_for(ctx.rng, ks, maxbits), fmasks=masks_for(ctx.rng, kd, maxbits), prop="C09")
+        # an accessor-mode side is always fully populated (its getters go through its own embedded pointers unguarded)
+        ms = masks_for(ctx.rng, ks, maxbits) if sp["src"]["kind"] != "new" else ["0" * ks]
+        fm = masks_for(ctx.rng, kd, maxbits) if sp["dest"]["kind"] != "new" else ["0" * kd]
+        c = mapgen.make_case("n%d" % i, sp, masks=ms, fmasks=fm, prop="C09")
         c["feat"] = feat
         c["bits"] = (ks, kd)
         cases.append(c)
